@@ -300,7 +300,7 @@ theorem setNameAndType_eq (name : Str) (p : Param) : setNameAndType name p = set
 
 theorem docNorm (t : Str) (h : GoodText t) : rstrip (join [' '] (List.map strip (split1 t '\n'))) = t := by
   have hnl : '\n' ∉ t := by
-    intro hm; have := (h.chars _ hm).2; rw [nl_isLineBreak] at this; cases this
+    intro hm; have := h.noBreak _ hm; rw [nl_isLineBreak] at this; cases this
   rw [split1_no t '\n' hnl]
   simp only [List.map_cons, List.map_nil, join, strip_id t h.headNS h.lastNS, rstrip_lastNS t h.lastNS]
 
